@@ -1,5 +1,7 @@
 import Casket.Model.Policy
 import Casket.Spec.Policy
+import Casket.Model.Retry
+import Casket.Spec.Retry
 import Driver.Proto
 /-
 Streams of C05.
@@ -62,14 +64,144 @@ def selectJudge (f : List String) (out : String) : String :=
     | some o => Casket.PolicySpec.verdict c.kind c.pool o
   | _, _ => "bad:unparsable:" ++ out
 
+/-- c05.seq: several Selects on one upstream; the counter is threaded through. -/
+def parseStep (kind robin : String) (st : String) : Option Case :=
+  match st.splitOn "|" with
+  | [p, key, rs, seed] => parseCase [kind, p, robin, key, rs, seed]
+  | _ => none
+
+def seqRun (kind : String) : List String → Nat → List (Option Nat) → Option (List (Option Nat) × Nat)
+  | [], robin, acc => some (acc.reverse, robin)
+  | st :: rest, robin, acc =>
+    match parseStep kind "0" st with
+    | none => none
+    | some c =>
+      let (o, r) := upstreamSelect c.kind c.pool robin c.hash c.rands
+      seqRun kind rest r (o :: acc)
+
+def seqModel : List String → String
+  | [kind, robin0, steps] =>
+    match robin0.toNat?, seqRun kind (steps.splitOn ";") (robin0.toNat?.getD 0) [] with
+    | some _, some (os, r) => ",".intercalate (os.map Driver.optNat) ++ "\t" ++ toString r
+    | _, _ => "bad-case"
+  | _ => "bad-case"
+
+def seqJudgeGo (kind : String) : List String → List String → String
+  | [], [] => "ok"
+  | st :: rest, o :: os =>
+    match parseStep kind "0" st, Driver.parseOptNat o with
+    | some c, some o =>
+      let v := Casket.PolicySpec.verdict c.kind c.pool o
+      if v == "ok" then seqJudgeGo kind rest os else v
+    | _, _ => "bad:unparsable:" ++ o
+  | _, _ => "bad:unparsable:step count"
+
+def seqJudge (f : List String) (out : String) : String :=
+  match f, out.splitOn "\t" with
+  | [kind, _, steps], [os, _] => seqJudgeGo kind (steps.splitOn ";") (os.splitOn ",")
+  | _, _ => "bad:unparsable:" ++ out
+
 def fnvModel : List String → String
   | [h] => match Driver.unhex h with
     | some bs => toString (fnv32a bs)
     | none => "bad-case"
   | _ => "bad-case"
 
+/-
+  c05.retry  kind robin keyhex hosts maxConns maxFails tryDuration interval failTimeout bodyLen framing
+     framing = cl (Content-Length = bodyLen; 0 = http.NoBody) | chunked (ContentLength -1, non-nil Body) | nil (Body nil)
+     hosts = comma list of  u/c/script  (u: 1 unhealthy; base conns; script letters K ok, F fail before
+             reading the body, R fail after reading it, C client cancelled, T body too large)
+     durations in milliseconds = ticks
+     out   = <result> TAB <attempts: host:body,...>   result = ok|502|499|413
+-/
+open Casket.Retry in
+def parseOutcome : Char → Option Outcome
+  | 'K' => some .ok
+  | 'F' => some (.fail false)
+  | 'R' => some (.fail true)
+  | 'C' => some .cancel
+  | 'T' => some .tooLarge
+  | _ => none
+
+open Casket.Retry in
+def parseRetryHost (s : String) : Option HostCfg :=
+  match s.splitOn "/" with
+  | [u, c, sc] => do
+    pure { unhealthy := u != "0", conns := ← c.toNat?, script := ← sc.toList.mapM parseOutcome }
+  | _ => none
+
+open Casket.Retry in
+def parseRetry : List String → Option (Cfg × Nat)
+  | [k, robin, key, hosts, mc, mf, d, i, f, blen, framing] => do
+    let hs ← (hosts.splitOn ",").mapM parseRetryHost
+    let c : Cfg := { kind := ← parseKind k, hash := fnv32a (← Driver.unhex key), rands := fun _ => [],
+                     tryDuration := ← d.toNat?, interval := ← i.toNat?, failTimeout := ← f.toNat?,
+                     maxFails := ← mf.toNat?, maxConns := ← mc.toNat?, hosts := hs,
+                     -- the outgoing request has a Body: unknown length (chunked upload, even when it turns out
+                     -- empty) or a declared Content-Length > 0; Content-Length 0 means Body = nil
+                     hasBody := framing == "chunked" || (framing == "cl" && (← blen.toNat?) != 0) }
+    pure (c, ← robin.toNat?)
+  | _ => none
+
+open Casket.Retry in
+def showResult : Result → String
+  | .success => "ok"
+  | .badGateway => "502"
+  | .cancelled => "499"
+  | .tooLarge => "413"
+  | .fuelOut => "fuel-out"
+
+open Casket.Retry in
+def showBodyKind : Body → String
+  | .none => "none"
+  | .full => "full"
+  | .empty => "empty"
+  | .unread => "unread"
+
+open Casket.Retry in
+def retryModel (f : List String) : String :=
+  match parseRetry f with
+  | none => "bad-case"
+  | some (c, robin) =>
+    let (res, att) := serve c robin
+    showResult res ++ "\t" ++ ",".intercalate (att.map fun a => s!"{a.host}:{showBodyKind a.body}")
+
+open Casket.Retry in
+def parseAttempt (s : String) : Option Attempt :=
+  match s.splitOn ":" with
+  | [h, b] => do
+    let body ← (match b with
+      | "none" => some Body.none
+      | "full" => some Body.full
+      | "empty" => some Body.empty
+      | "partial" => some Body.empty
+      | "unread" => some Body.unread
+      | _ => none)
+    pure { host := ← h.toNat?, body := body }
+  | _ => none
+
+open Casket.Retry in
+def retryJudge (f : List String) (out : String) : String :=
+  if out.startsWith "hung" then "bad:never-gives-up:the retry loop was still running 20 s after the request (try_duration long past)" else
+  match parseRetry f, out.splitOn "\t" with
+  | some (c, _), [r, att] =>
+    let res : Option Result := match r with
+      | "ok" => some .success
+      | "502" => some .badGateway
+      | "499" => some .cancelled
+      | "413" => some .tooLarge
+      | _ => none
+    let atts : Option (List Attempt) := if att = "" then some [] else (att.splitOn ",").mapM parseAttempt
+    match res, atts with
+    | some res, some atts => Casket.RetrySpec.verdict c res atts
+    | _, _ => "bad:unparsable:" ++ out
+  | _, _ => "bad:unparsable:" ++ out
+
 def streams : List Driver.Stream := [
+  { name := "c05.retry", model := retryModel, judge := retryJudge },
   { name := "c05.select", model := selectModel, judge := selectJudge },
+  { name := "c05.seq", model := seqModel, judge := seqJudge },
   { name := "c05.fnv", model := fnvModel, judge := fun _ _ => "ok" }
 ]
 
